@@ -83,61 +83,67 @@ func checkC06(c *Ctx, r *Report) {
 		ruleNoReorder(c, r, "C06.a", gcs, e.Ver+": generateControllerSpec")
 		// arms of the location switch
 		if fi := need(c, r, "C06.a", gp); fi != nil {
-			info := fi.Pkg.TypesInfo
-			sw := w.switches(fi, func(tag ast.Expr) bool {
-				se, ok := tag.(*ast.SelectorExpr)
-				return ok && qualField(info, se) == fp+".PassedIn"
-			})
+			// whatever the form of the dispatch (switch, if-chain): each creator is called exactly
+			// where param.PassedIn is known to be (or not to be) Body / Form
 			viol := ""
 			var sites []string
-			if len(sw) != 1 {
-				viol = fmt.Sprintf("expected one switch on param.PassedIn in %s, found %d", gp, len(sw))
-			} else {
-				sites = append(sites, w.pos(sw[0].Pos))
-				want := map[string]string{"Body": crb, "Form": crf, "": crp}
-				got := map[string]bool{}
-				for _, cc := range sw[0].Stmt.Body.List {
-					cl := cc.(*ast.CaseClause)
-					labels := []string{""}
-					if cl.List != nil {
-						labels = nil
-						for _, l := range cl.List {
-							labels = append(labels, constString(info.Types[l].Value))
-						}
+			locFact := func(ins ssa.Instruction) map[string]bool { // "Body"/"Form" -> known equal (true) / known different (false)
+				out := map[string]bool{}
+				for _, f := range guardsOf(ins) {
+					cnd, pol := unwrapNot(f.Cond, f.Pol)
+					bo, ok := cnd.(*ssa.BinOp)
+					if !ok || (bo.Op != token.EQL && bo.Op != token.NEQ) {
+						continue
 					}
-					for _, lab := range labels {
-						callee, known := want[lab]
-						if !known {
-							viol = fmt.Sprintf("%s: unexpected location arm %q", w.pos(cl.Pos()), lab)
-							continue
-						}
-						got[lab] = true
-						found := false
-						for _, st := range cl.Body {
-							if containsNode(st, w.callPred(fi, callee)) {
-								found = true
-								sites = append(sites, w.pos(st.Pos()))
-								// body: assigned to operation.RequestBody; default: appended to operation.Parameters
-								if as, ok := st.(*ast.AssignStmt); ok && len(as.Lhs) == 1 {
-									lhs := exprString(as.Lhs[0])
-									if lab == "Body" && !strings.HasSuffix(lhs, ".RequestBody") {
-										viol = fmt.Sprintf("%s: body parameter is not stored in operation.RequestBody", w.pos(st.Pos()))
-									}
-									if lab == "" && !strings.HasSuffix(lhs, ".Parameters") {
-										viol = fmt.Sprintf("%s: parameter is not appended to operation.Parameters", w.pos(st.Pos()))
-									}
-								}
-							}
-						}
-						if !found {
-							viol = fmt.Sprintf("%s: arm %q does not call %s", w.pos(cl.Pos()), lab, callee)
+					a := sliceOf(cnd)
+					if !a.hasFieldNamed("PassedIn") {
+						continue
+					}
+					eq := (bo.Op == token.EQL) == pol
+					for _, k := range a.Consts {
+						switch unquote(k) {
+						case "Body", "Form":
+							out[unquote(k)] = eq
 						}
 					}
 				}
-				for lab := range want {
-					if !got[lab] {
-						viol = fmt.Sprintf("location switch lacks the %q arm", lab)
+				return out
+			}
+			want := []struct {
+				callee string
+				is     map[string]bool
+				desc   string
+			}{
+				{crb, map[string]bool{"Body": true}, "Body -> requestBody"},
+				{crf, map[string]bool{"Form": true}, "Form -> form property"},
+				{crp, map[string]bool{"Body": false, "Form": false}, "everything else -> parameters"},
+			}
+			for _, wnt := range want {
+				calls := callsIn(fi.SSA, false, nameIs(wnt.callee))
+				if len(calls) == 0 {
+					viol = fmt.Sprintf("%s never calls %s (%s)", gp, wnt.callee, wnt.desc)
+				}
+				for _, cl := range calls {
+					sites = append(sites, w.pos(cl.Pos()))
+					got := locFact(cl)
+					for k, v := range wnt.is {
+						if gv, known := got[k]; !known || gv != v {
+							viol = fmt.Sprintf("%s: %s is called where param.PassedIn is not known to be %s%s (%s)", w.pos(cl.Pos()), wnt.callee, map[bool]string{true: "", false: "other than "}[v], k, wnt.desc)
+						}
 					}
+				}
+			}
+			// body: stored as operation.RequestBody; parameters: appended to operation.Parameters
+			for _, t := range []struct{ callee, field string }{{crb, "RequestBody"}, {crp, "Parameters"}} {
+				okStore := false
+				for _, sk := range w.fieldSinks(fi, opT, t.field) {
+					if w.exprAtoms(fi, sk.Expr).hasCall(t.callee) {
+						okStore = true
+						sites = append(sites, w.pos(sk.Pos))
+					}
+				}
+				if !okStore {
+					viol = fmt.Sprintf("the result of %s is not stored in operation.%s", t.callee, t.field)
 				}
 			}
 			o := r.add("C06.a", "setagree", gp+":location-arms", e.Ver+": Body -> requestBody, Form -> form property, everything else -> parameters", []string{gp}, sites, viol)
